@@ -4,6 +4,7 @@ import (
 	"fmt"
 	"go/token"
 	"go/types"
+	"math"
 	"path/filepath"
 	"sort"
 	"strings"
@@ -623,4 +624,164 @@ func (c *Ctx) fieldFreshlySet(f *ssa.Function, cells map[ssa.Value]*ssa.Paramete
 		}
 	})
 	return n > 0 && all && dominated
+}
+
+// ---------------------------------------------------------------------------
+// R-ANON-VAR (C06; added after seed C06c): the reader maps equal variable tokens of one term to one
+// variable; only the token `_` denotes a fresh variable at each occurrence. In the parser's variable
+// function every creation of a variable either lies under the fact that the token text equals "_", or is
+// followed on every path by the recording of the name (a store into the parser's variable table), so that
+// the next occurrence finds it. The writer prints an unnamed variable as _N and expresses "the same
+// variable twice" only by repeating that token: a reader that takes every _Name for anonymous reads
+// f(_1,_2,_1) back as f(_,_,_).
+
+func ruleAnonVar(c *Ctx, r *Report) {
+	const rule = "R-ANON-VAR"
+	fn := c.method("Parser", "variable")
+	newVar := c.fn("NewVariable")
+	if fn == nil || newVar == nil || len(fn.Params) < 2 {
+		r.undecided(rule, "anchor", "-", "locate Parser.variable and NewVariable", "not found")
+		return
+	}
+	name := ssa.Value(fn.Params[1])
+	desc := "a variable token other than `_` is recorded so that its next occurrence denotes the same variable"
+	n := 0
+	eachInstr(fn, func(in ssa.Instruction) {
+		call, ok := in.(*ssa.Call)
+		if !ok || call.Call.StaticCallee() != newVar {
+			return
+		}
+		n++
+		key := fmt.Sprintf("%s/NewVariable#%d", fname(fn), n)
+		anon := false
+		for f := range c.factsAt(in.Block()) {
+			bo, ok := f.cond.(*ssa.BinOp)
+			if !ok || (bo.Op != token.EQL && bo.Op != token.NEQ) || (bo.Op == token.EQL) != f.pol {
+				continue
+			}
+			for _, pair := range [][2]ssa.Value{{bo.X, bo.Y}, {bo.Y, bo.X}} {
+				if pair[0] != name {
+					continue
+				}
+				if k, ok := pair[1].(*ssa.Const); ok && k.Value != nil && k.Value.ExactString() == `"_"` {
+					anon = true
+				}
+			}
+		}
+		if anon {
+			r.ok(rule, key, c.at(in), desc, "created under the fact token == \"_\"", true)
+			return
+		}
+		isRecord := func(x ssa.Instruction) bool {
+			st, ok := x.(*ssa.Store)
+			if !ok {
+				return false
+			}
+			fa, ok := st.Addr.(*ssa.FieldAddr)
+			return ok && fieldName(fa) == "Vars"
+		}
+		miss := instrReachAvoid(in, func(x ssa.Instruction) bool { _, ok := x.(*ssa.Return); return ok }, isRecord)
+		if miss == nil {
+			r.ok(rule, key, c.at(in), desc, "every path from the creation to a return records the name in Parser.Vars", true)
+		} else {
+			r.bad(rule, fmt.Sprintf("%s/NewVariable", fname(fn)), c.at(in), desc, "a fresh variable is returned for a token that is not known to be `_` and the name is not recorded: two occurrences of the same token become two variables")
+		}
+	})
+	if n == 0 {
+		r.bad(rule, fname(fn)+"/NewVariable", c.Pos(fn.Pos()), desc, "no variable is created here")
+	}
+	r.analysed(rule, fname(fn))
+}
+
+// ---------------------------------------------------------------------------
+// R-INT-CONVERT (C15; added after seed C15c): a Go integer enters Prolog as the Integer with the same
+// value. Every conversion into engine.Integer from an unsigned 64-bit (or platform-sized unsigned) value
+// is guarded by branch facts bounding it by the largest Integer; signed sources and narrower unsigned
+// sources are value-preserving by type.
+
+func ruleIntConvert(c *Ctx, r *Report) {
+	const rule = "R-INT-CONVERT"
+	desc := "a conversion of a Go integer into engine.Integer preserves the value"
+	n, nuns := 0, 0
+	for _, fn := range c.LibFuncs() {
+		seen := 0
+		eachInstr(fn, func(in ssa.Instruction) {
+			cv, ok := in.(*ssa.Convert)
+			if !ok || !isEngNamed(cv.Type(), "Integer") {
+				return
+			}
+			src, ok := cv.X.Type().Underlying().(*types.Basic)
+			if !ok || src.Info()&types.IsInteger == 0 {
+				return
+			}
+			n++
+			switch src.Kind() {
+			case types.Uint64, types.Uint, types.Uintptr:
+			default:
+				return
+			}
+			nuns++
+			seen++
+			key := fmt.Sprintf("%s/Integer(%s)#%d", fname(fn), stableName(cv.X), seen)
+			rg := c.rangeOfIndex(cv.X, in)
+			if rg.hasHi && rg.hi <= math.MaxInt64 && rg.hi >= 0 {
+				r.ok(rule, key, c.at(in), desc, "unsigned source bounded by branch facts", true)
+			} else {
+				r.bad(rule, fmt.Sprintf("%s/Integer(%s)", fname(fn), stableName(cv.X)), c.at(in), desc, "an unsigned 64-bit value is converted without a bound: values from 2^63 wrap to negative Integers (uint64(math.MaxUint64) arrives as -1)")
+			}
+		})
+	}
+	r.ok(rule, "scan/conversions", "-", desc, fmt.Sprintf("%d integer conversions into engine.Integer examined, %d from an unsigned 64-bit source", n, nuns), false)
+	r.analysed(rule, fmt.Sprintf("%d conversions into engine.Integer", n))
+}
+
+// ---------------------------------------------------------------------------
+// R-TAIL-CDR (C16, C02; added after seed C16c): a partial list [E1,...,En|T] is a proper-list spine whose
+// final [] stands for T. In (*partial).Arg the tail is substituted only in the cdr position: the load of
+// the tail lies under the fact n == 1. Substituting it for an ELEMENT that happens to be [] replaces that
+// element by the tail (append([a,[],b],[c],Zs) answers [a,[c],b,c]).
+
+func ruleTailCdr(c *Ctx, r *Report) {
+	const rule = "R-TAIL-CDR"
+	fn := c.method("partial", "Arg")
+	if fn == nil || len(fn.Params) < 2 {
+		r.undecided(rule, "anchor:partial.Arg", "-", "locate (*partial).Arg", "not found")
+		return
+	}
+	idx := ssa.Value(fn.Params[1])
+	desc := "the tail of a partial list replaces only the cdr ([] at argument 1), never an element"
+	n := 0
+	eachInstr(fn, func(in ssa.Instruction) {
+		// uses of the tail: loads through the field `tail`, and constructions of a nested partial
+		fa, ok := in.(*ssa.FieldAddr)
+		if !ok || fieldName(fa) != "tail" {
+			return
+		}
+		n++
+		key := fmt.Sprintf("%s/tail#%d", fname(fn), n)
+		cdr := false
+		for f := range c.factsAt(in.Block()) {
+			bo, ok := f.cond.(*ssa.BinOp)
+			if !ok || (bo.Op != token.EQL && bo.Op != token.NEQ) || (bo.Op == token.EQL) != f.pol {
+				continue
+			}
+			for _, pair := range [][2]ssa.Value{{bo.X, bo.Y}, {bo.Y, bo.X}} {
+				if pair[0] != idx {
+					continue
+				}
+				if k, ok := constInt(pair[1]); ok && k == 1 {
+					cdr = true
+				}
+			}
+		}
+		if cdr {
+			r.ok(rule, key, c.at(in), desc, "used under the fact n == 1", true)
+		} else {
+			r.bad(rule, fmt.Sprintf("%s/tail", fname(fn)), c.at(in), desc, "the tail is used without the fact n == 1: an element [] of the prefix is replaced by the tail")
+		}
+	})
+	if n == 0 {
+		r.bad(rule, fname(fn)+"/tail", c.Pos(fn.Pos()), desc, "the tail is never used in Arg")
+	}
+	r.analysed(rule, fname(fn))
 }
